@@ -56,6 +56,12 @@ def run(tier):
         for _c in _p["ctx"]:
             ck.count("nesting_context_" + _c)
         plist.append(_p)
+    # size ladders: this property's sized things at every size of a ladder straddling powers of two (vfpy/gen/feat_scale.py)
+    from ..gen import feat_scale as _scale
+    for _p in _scale.programs("C18", ck.rng.fork("scale"), quick):
+        ck.count("scale_programs")
+        ck.count("scale_template_" + _p["scale"][0])
+        plist.append(_p)
     checked, discarded = modelcheck.check_programs(ck, plist, on_result=seen)
     ck.coverage["programs_checked"] = checked
     ck.coverage["programs_discarded_by_model"] = discarded
